@@ -697,7 +697,10 @@ class C14(Check):
             if ts & {1, 2, 3, 4, 8} and not tags: tags.append("opts")
         if k == "ipv4" and L["raw_options"]: tags.append("options")
         if k == "ipv6" and L.get("ext"): tags.append("ext")
-        if k == "lldp": tags += ["tlv%d" % t for t in sorted({t["t"] for t in L["tlvs"]} - {0, 1, 2, 3})]
+        if k == "lldp":
+            opt = {t["t"] for t in L["tlvs"]} - {0, 1, 2, 3}
+            if 8 in opt: tags.append("mgmt")
+            if opt - {8}: tags.append("opt")
         if k == "dhcp":
             if L["options"]: tags.append("options")
         if k == "dns":
